@@ -269,6 +269,17 @@ static Scn make(const std::string& s) {
     fprintf(stderr, "unknown scenario %s\n", s.c_str()); exit(2);
 }
 struct Stats { long paths, steps, stuck; };
+// debugging aid (VERIF_ONLY): the library's view of the world when a run is cut off
+static void dump_state(tbb::task_arena& arena) {
+    using vh::rawload; tbb::detail::r1::arena* a = rawload(arena.my_arena);
+    fprintf(stderr, "graph wait_context ref=%llu  harness wait ref=%llu\n", (unsigned long long)rawload(G->my_wait_context_vertex.get_context().m_ref_count), (unsigned long long)rawload(HWC->m_ref_count));
+    if (LM) fprintf(stderr, "limiter count=%zu tries=%zu future_decrement=%zu threshold=%zu\n", LM->my_count, LM->my_tries, LM->my_future_decrement, LM->my_threshold);
+    if (Q[0]) fprintf(stderr, "queue head=%zu tail=%zu reserved=%d\n", Q[0]->my_head, Q[0]->my_tail, (int)Q[0]->my_reserved);
+    fprintf(stderr, "arena pool_state=%d fifo pop=%lx critical pop=%lx resume pop=%lx slots=%u\n", (int)rawload(a->my_pool_state.my_state), (unsigned long)rawload(a->my_fifo_task_stream.population),
+            (unsigned long)rawload(a->my_critical_task_stream.population), (unsigned long)rawload(a->my_resume_task_stream.population), a->my_num_slots);
+    for (unsigned i = 0; i < a->my_num_slots; i++) { auto& sl = a->my_slots[i];
+        fprintf(stderr, "  slot %u occupied=%d task_pool=%p head=%zu tail=%zu mailbox_empty=%d\n", i, (int)rawload(sl.my_is_occupied), (void*)rawload(sl.task_pool), (size_t)rawload(sl.head), (size_t)rawload(sl.tail), (int)a->mailbox(i).empty()); }
+}
 int main(int argc, char** argv) {
     if (argc < 5) { fprintf(stderr, "usage\n"); return 2; }
     FILE* out = fopen(argv[1], "w"); std::string sc = argv[2]; int nseeds = atoi(argv[3]); unsigned long seed0 = strtoul(argv[4], nullptr, 10);
@@ -292,11 +303,13 @@ int main(int argc, char** argv) {
                     arena.execute([&] { try { if (id == NT) help(id); else S0.role(id); } catch (...) { TR.emit("{\"e\":\"Escaped\",\"t\":%d}", id); } }); });
                 int rc = S.run_random(seed0 + s, 30000000, dens[s % 8]);
                 TR.sched(S.sched_log); st->steps += S.steps; ++st->paths;
+                if (rc != RC_OK && only >= 0) dump_state(arena);
+                if (rc != RC_OK && only >= 0 && getenv("VERIF_PAUSE_ON_STUCK")) { fprintf(stderr, "stuck: pid %d paused for gdb\n", (int)getpid()); alarm(0); sleep(900); }
                 if (rc != RC_OK && only >= 0) for (int i = 0; i < S.n(); i++) fprintf(stderr, "thread %d state %d pending kind %d addr %p hooks %ld\n", i, S.state(i), S.pending(i).kind, S.pending(i).addr, S.lts[i]->hooks);
                 if (rc != RC_OK) { TR.emit("{\"e\":\"Stuck\",\"rc\":\"%s\"}", rc_name(rc).c_str()); ++st->stuck; S.join_all(); return; }     // a stuck run ends its chunk (parked threads, time budget of the child)
                 S.join_all();
             }
-        });
+        }, &c0);
     }
     fclose(out);
     printf("{\"paths\":%ld,\"steps\":%ld,\"stuck\":%ld,\"crashed\":%ld,\"wall\":%.2f}\n", st->paths, st->steps, st->stuck, crashed, tm.s());
